@@ -4,6 +4,7 @@ import (
 	"context"
 
 	"github.com/jeroenrinzema/psql-wire/pkg/buffer"
+	"github.com/lib/pq/oid"
 )
 
 // ---------------------------------------------------------------------------
@@ -134,5 +135,41 @@ func VerifH20c() {
 		if v == 65535 {
 			vReach("at-protocol-limit")
 		}
+	}
+}
+
+// ---------------------------------------------------------------------------
+// H02p — ParameterDescription for large parameter counts (C02, C20): the
+// declared 16-bit count equals the number of object ids that follow, at the
+// boundaries of the signed and unsigned 16-bit ranges.
+// ---------------------------------------------------------------------------
+func VerifH02p() {
+	counts := []int{0, 1, 32767, 32768, 40000, 65535}
+	n := counts[vChoose(len(counts))]
+	fn := func(ctx context.Context, dw DataWriter, params []Parameter) error { return nil }
+	parse := func(ctx context.Context, query string) (PreparedStatements, error) {
+		return Prepared(NewStatement(fn, WithParameters(make([]oid.Oid, n)))), nil
+	}
+	srv, err := NewServer(parse, MessageBufferSize(64))
+	vAssert("newserver-ok", err == nil)
+	w := &vWorld{srv: srv}
+	w.conn = vNewConn(nil)
+	w.ses, w.rd, w.wr = vSession(srv, w.conn)
+	w.ctx = vCtx(srv)
+	pbody := vCat(vCStr(nil), vCStr([]byte("q")), vU16(0))
+	vAssert("parse-ok", w.ses.handleParse(w.ctx, &buffer.Reader{Msg: pbody, MaxMessageSize: 64}, w.wr) == nil)
+	w.conn.out = nil
+	dbody := vCat([]byte{'S'}, vCStr(nil))
+	vAssert("describe-ok", w.ses.handleDescribe(w.ctx, &buffer.Reader{Msg: dbody, MaxMessageSize: 64}, w.wr) == nil)
+	msgs, ok := vFrames(w.conn.out)
+	vAssert("describe-replies", ok && len(msgs) == 2 && msgs[0].typ == 't')
+	b := msgs[0].body
+	vAssert("declared-count-is-the-parameter-count", vBE16(b, 0) == n)
+	vAssert("object-ids-match-declared-count", len(b) == 2+4*n)
+	if n == 32768 {
+		vReach("beyond-int16")
+	}
+	if n == 65535 {
+		vReach("protocol-maximum")
 	}
 }
